@@ -2893,8 +2893,8 @@ func (v *sxView) snapshotAt(p *Path, a int) *Path {
 				continue
 			}
 			if _, carried := l1.Init[o]; !carried {
-				if isLocalVar(o) && insideNode(&ast.Ident{NamePos: o.Pos()}, l1.Node) {
-					continue // a local of the body
+				if h, isL := l1.HeadEnv[o].(TLoop); !isL || h.Obj != o || h.ID != l1.ID {
+					continue // not carried from round to round: a local of the body or of a helper inlined there
 				}
 			}
 			ap, isAp := t.(TBuiltin)
@@ -2934,7 +2934,9 @@ func (v *sxView) snapshotAt(p *Path, a int) *Path {
 		return nil
 	}
 	l2 := p.Steps[b].Loop
-	if l2 == nil || l2.Range == nil || !loopQuiet(l2) {
+	// the second loop writes no memory — or the whole function writes nothing that existed before the call and runs no user code
+	// (v.heapQuiet: E3), so what the first loop read, and what the gathered values are computed from, is out of its reach
+	if l2 == nil || l2.Range == nil || (!loopQuiet(l2) && !v.heapQuiet) {
 		return nil
 	}
 	if ov, ok := l2.Over.(TLoop); !ok || ov.Obj != acc || ov.ID != l1.ID {
@@ -2973,7 +2975,7 @@ func (v *sxView) snapshotAt(p *Path, a int) *Path {
 						return true
 					}
 					for eo, et := range ip.Env {
-						if eo != o && mentions(et, o) {
+						if _, carried := s.Loop.Init[eo]; carried && eo != o && mentions(et, o) {
 							return true
 						}
 					}
@@ -2996,7 +2998,7 @@ func (v *sxView) snapshotAt(p *Path, a int) *Path {
 			return nil
 		}
 		for eo, et := range ip.Env {
-			if eo != acc && mentions(et, acc) {
+			if _, carried := l2.Init[eo]; carried && eo != acc && mentions(et, acc) {
 				return nil
 			}
 		}
@@ -3011,7 +3013,7 @@ func (v *sxView) snapshotAt(p *Path, a int) *Path {
 		for _, ip := range l2.Iter {
 			keyUsed = keyUsed || pathMentions(ip, l2.Key, nil)
 			for eo, et := range ip.Env {
-				if eo != l2.Key {
+				if _, carried := l2.Init[eo]; carried && eo != l2.Key {
 					keyUsed = keyUsed || mentions(et, l2.Key)
 				}
 			}
@@ -3538,6 +3540,166 @@ func nilByConds(paths []*Path) []*Path {
 				return nil, false
 			})
 		}
+		if changed {
+			out[i] = q
+		}
+	}
+	return out
+}
+
+// mergeBoolReturn: `if T { return true }; return false` is `return T`: two paths that agree on everything but the truth of their last
+// decision, do nothing after it and return the two boolean constants, are one path returning the decision term (or its negation).
+func mergeBoolReturn(paths []*Path) []*Path {
+	for {
+		merged := false
+		for i := 0; i < len(paths) && !merged; i++ {
+			for j := i + 1; j < len(paths) && !merged; j++ {
+				p, q := paths[i], paths[j]
+				if p.End != "return" || q.End != "return" || len(p.Vals) != 1 || len(q.Vals) != 1 || len(p.Steps) == 0 || len(p.Steps) != len(q.Steps) {
+					continue
+				}
+				bp, okp := constBoolOf(p.Vals[0])
+				bq, okq := constBoolOf(q.Vals[0])
+				if !okp || !okq || bp == bq {
+					continue
+				}
+				k := len(p.Steps) - 1
+				lp, lq := p.Steps[k], q.Steps[k]
+				if lp.Kind != "cond" || lq.Kind != "cond" || !sameTerm(lp.Cond.T, lq.Cond.T) || lp.Cond.Truth == lq.Cond.Truth {
+					continue
+				}
+				same := true
+				for m := 0; m < k; m++ {
+					a, b := p.Steps[m], q.Steps[m]
+					if a.Kind != b.Kind || a.Node != b.Node || (a.Kind == "cond" && (a.Cond.Truth != b.Cond.Truth || !sameTerm(a.Cond.T, b.Cond.T))) {
+						same = false
+						break
+					}
+				}
+				if !same {
+					continue
+				}
+				r := clonePath(p)
+				r.Steps = append([]Step(nil), p.Steps[:k]...)
+				val := lp.Cond.T
+				if lp.Cond.Truth != bp {
+					val = simplify(TUn{token.NOT, val})
+				}
+				r.Vals = []Term{val}
+				var out []*Path
+				for m, x := range paths {
+					switch m {
+					case i:
+						out = append(out, r)
+					case j:
+					default:
+						out = append(out, x)
+					}
+				}
+				paths, merged = out, true
+			}
+		}
+		if !merged {
+			return paths
+		}
+	}
+}
+
+// asCounted: a range over a slice seen as the counting loop it is — `for k := 0; k < len(X); k++` with the element read as X[k] —
+// for rules that simulate loop headers. The length is that of the operand when the loop starts (range evaluates it once); the view
+// is only offered for operands the loop does not write (a parameter, a local). nil when the loop is not such a range.
+func (v *sxView) asCounted(l *LoopRec) *LoopRec {
+	if l == nil || l.Range == nil || l.For != nil {
+		return nil
+	}
+	tt := v.c.termType(l.Over)
+	if tt == nil {
+		return nil
+	}
+	if _, isSlice := tt.Underlying().(*types.Slice); !isSlice {
+		return nil
+	}
+	if _, isVar := l.Over.(TVar); !isVar {
+		return nil
+	}
+	key := l.Key
+	if key == nil {
+		key = types.NewVar(l.Range.Pos(), v.c.Types, "pos·range", types.Typ[types.Int])
+	}
+	ctr := TLoop{key, l.ID}
+	f := func(t Term) (Term, bool) {
+		if tv, ok := t.(TVar); ok {
+			if tv.Obj == key {
+				return ctr, true
+			}
+			if l.Value != nil && tv.Obj == l.Value {
+				return TIndex{X: l.Over, I: ctr, Epoch: l.HeadEpoch}, true
+			}
+		}
+		return nil, false
+	}
+	r := mapLoop(l, f)
+	r.Range, r.Key, r.Value = nil, nil, nil
+	r.For = &ast.ForStmt{For: l.Range.Pos()}
+	r.CondT = TBin{Op: token.LSS, X: ctr, Y: TBuiltin{Name: "len", Args: []Term{l.Over}, Epoch: l.HeadEpoch}}
+	r.Init = copyEnv(r.Init)
+	if r.Init == nil {
+		r.Init = map[types.Object]Term{}
+	}
+	r.Init[key] = TConst{constant.MakeInt64(0)}
+	r.Post, r.PostStep = nil, map[types.Object]int64{key: 1}
+	for _, ip := range r.Iter {
+		if ip.Env != nil {
+			ip.Env[key] = ctr
+			if l.Value != nil {
+				delete(ip.Env, l.Value)
+			}
+		}
+	}
+	return r
+}
+
+// assertByConds: a path that decided `x.(type) == T` (a type-switch case, a successful comma-ok assertion) asserts nothing new with a
+// later `x.(I)` when every value of type T is an I (`case Object, List: return v.(field)`): the assertion cannot fail and hands on x.
+func assertByConds(paths []*Path) []*Path {
+	out := make([]*Path, len(paths))
+	for i, p := range paths {
+		out[i] = p
+		type fact struct {
+			x Term
+			t types.Type
+		}
+		var facts []fact
+		for _, cd := range p.Conds() {
+			if !cd.Truth {
+				continue
+			}
+			if op, T, ok := kindTestOf(cd.T); ok && T != nil {
+				facts = append(facts, fact{op, T})
+			}
+		}
+		if len(facts) == 0 {
+			continue
+		}
+		changed := false
+		f := func(u Term) (Term, bool) {
+			as, ok := u.(TAssert)
+			if !ok || as.To == nil {
+				return nil, false
+			}
+			iface, isI := as.To.Underlying().(*types.Interface)
+			if !isI {
+				return nil, false
+			}
+			for _, fc := range facts {
+				if sameTerm(fc.x, as.X) && types.Implements(fc.t, iface) {
+					changed = true
+					return as.X, true
+				}
+			}
+			return nil, false
+		}
+		q := mapPath(p, f)
 		if changed {
 			out[i] = q
 		}
